@@ -1,7 +1,7 @@
 //! C12 — the staging buffer delivers every byte once, in order, under every interleaving
 use crate::runner::{mark_progress, Obs, Prop, Tier};
 use crate::sink::SharedSink;
-use bigtools::utils::tempfilebuffer::TempFileBuffer;
+use bigtools::utils::tempfilebuffer::{TempFileBuffer, TempFileBufferWriter};
 use proptest::prelude::*;
 use proptest::sample::select;
 use serde::{Deserialize, Serialize};
@@ -23,6 +23,9 @@ pub enum Case {
     Grid { inmemory: bool, max_writes: u8 },
     /// one sequential interleaving
     Seq { inmemory: bool, sizes: Vec<u32>, program: Program, prefix: u16, #[serde(default)] cap: u32 },
+    /// a buffer whose destination is the writer half of another buffer (how per-chromosome zoom data reaches
+    /// the per-level file): sizes = [outer before, inner before, inner after, outer after the inner finished]
+    Nested { inmem_outer: bool, inmem_inner: bool, order: u8, sizes: [u32; 4] },
     /// producer and consumer on two threads with a seeded delay schedule
     Threaded {
         inmemory: bool,
@@ -172,6 +175,52 @@ fn run_seq(inmemory: bool, sizes: &[u32], program: Program, prefix: u16, cap: u3
     Ok(staged_switch)
 }
 
+fn run_nested(inmem_outer: bool, inmem_inner: bool, order: u8, sizes: [u32; 4]) -> Result<(), String> {
+    mark_progress();
+    let chunks = stream(&sizes);
+    let pre = prefix_bytes(5);
+    let dest = SharedSink::new();
+    {
+        let mut d = dest.clone();
+        d.write_all(&pre).unwrap();
+    }
+    let what = format!("nested buffers outer={} inner={} order={} sizes={:?}", if inmem_outer { "memory" } else { "tempfile" }, if inmem_inner { "memory" } else { "tempfile" }, order, sizes);
+    let io = |e: std::io::Error| format!("{}: write failed: {}", what, e);
+    let (mut buf_o, mut w_o) = TempFileBuffer::<SharedSink>::new(inmem_outer);
+    let (mut buf_i, mut w_i) = TempFileBuffer::<TempFileBufferWriter<SharedSink>>::new(inmem_inner);
+    put(&mut w_o, &chunks[0]).map_err(io)?;
+    put(&mut w_i, &chunks[1]).map_err(io)?;
+    match order % 3 {
+        // the outer buffer is redirected first, then the inner one to the outer writer
+        0 => {
+            buf_o.switch(dest.clone());
+            buf_i.switch(w_o);
+            put(&mut w_i, &chunks[2]).map_err(io)?;
+        }
+        // the inner one first; the outer destination arrives while the inner writer is still active
+        1 => {
+            buf_i.switch(w_o);
+            put(&mut w_i, &chunks[2]).map_err(io)?;
+            buf_o.switch(dest.clone());
+        }
+        // the inner producer finishes before anything is redirected
+        _ => {
+            put(&mut w_i, &chunks[2]).map_err(io)?;
+            buf_o.switch(dest.clone());
+            buf_i.switch(w_o);
+        }
+    }
+    drop(w_i);
+    let mut w_o = buf_i.await_real_file();
+    if order % 3 == 1 {
+        // nothing yet
+    }
+    put(&mut w_o, &chunks[3]).map_err(io)?;
+    drop(w_o);
+    let back = buf_o.await_real_file();
+    expect_dest(&back.bytes(), &pre, &chunks, &what)
+}
+
 #[cfg(bigtools_verif)]
 fn set_schedule(seed: u64, intensity: u32) {
     bigtools::utils::verif_hooks::set_schedule(seed, intensity);
@@ -299,7 +348,7 @@ impl Prop for C12 {
          ENUMERATED exhaustively: producer histories of 0..=4 writes with sizes from {0,1,17,8192,70000} then drop (781 histories) x staging {memory, temp file} x consumer programs \
          {switch at every position 0..=n+1 then await_real_file; expect_closed_write; len() then expect_closed_write}, readiness polled between all calls, destination pre-loaded with a prefix, destination accepting everything or at most 4096 bytes per write() call (generated: 1 byte .. 8 KiB); \
          oracle: destination = prefix ++ writes, once, in order; len() = bytes written; ready <=> dropped. THREADED: the same programs on two threads, await started before the drop, seeded delay schedules at the \
-         cfg(bigtools_verif) delay points, must also return within the deadline. GENERATED: histories with arbitrary sizes up to 200 kB, one in four with a round byte total (powers of two, 8000 .. 192000) cut at generated points. \
+         cfg(bigtools_verif) delay points, must also return within the deadline. NESTED: a buffer whose destination is the writer half of another buffer (both staging modes each, three orders of redirection). GENERATED: histories with arbitrary sizes up to 200 kB, one in four with a round byte total (powers of two, 8000 .. 192000) cut at generated points. \
          non-trivial = the switch lands strictly between two writes with staged data present (sequential: by construction; threaded: hook counter); each enumerated interleaving is distinct by construction"
             .into()
     }
@@ -393,6 +442,16 @@ impl Prop for C12 {
         for inmemory in [true, false] {
             v.push(Case::Grid { inmemory, max_writes: tier.pick(4, 4) });
         }
+        // chained buffers (destination = the writer half of another buffer), every staging combination
+        for inmem_outer in [true, false] {
+            for inmem_inner in [true, false] {
+                for order in 0..3u8 {
+                    for sizes in [[10u32, 20, 30, 5], [9000, 70_000, 1, 0], [0, 8192, 8192, 17], [100_000, 0, 0, 64_000]] {
+                        v.push(Case::Nested { inmem_outer, inmem_inner, order, sizes });
+                    }
+                }
+            }
+        }
         // several megabytes staged before the switch lands between two writes, and at the other positions
         for big in [5_000_000u32, 9_000_000] {
             for inmemory in [true, false] {
@@ -446,6 +505,11 @@ impl Prop for C12 {
                 }
                 obs.nontrivial = true;
                 Ok(())
+            }
+            Case::Nested { inmem_outer, inmem_inner, order, sizes } => {
+                obs.label("nested-buffers");
+                obs.nontrivial = !*inmem_outer || !*inmem_inner;
+                run_nested(*inmem_outer, *inmem_inner, *order, *sizes)
             }
             Case::Seq { inmemory, sizes, program, prefix, cap } => {
                 obs.label(if *inmemory { "seq-memory" } else { "seq-tempfile" });
